@@ -205,7 +205,16 @@ def make(interp):
             g = lambda x: F(mu_, toz3(x))
             return SArr(k.shape, lambda idx: g(k.get(idx))) if isinstance(k, SArr) else g(k)
         return f
-    _early_dist = {"POISPMF": POISPMF, "POISCDF": POISCDF}
+    # binomial pmf (scipy.stats.binom.pmf(k, n, p)) as an uninterpreted mathematical function of (p, n, k)
+    BINOMPMF = z3.Function("BinomialPMF", z3.RealSort(), z3.IntSort(), z3.IntSort(), z3.RealSort())
+    def binom_pmf(k, n, p):
+        p_ = _real(p); g = lambda kk, nn: BINOMPMF(p_, toz3(nn), toz3(kk))
+        sh = k.shape if isinstance(k, SArr) else (n.shape if isinstance(n, SArr) else None)
+        if sh is None: return g(k, n)
+        el = lambda v, idx: v.get(idx) if isinstance(v, SArr) else v
+        return SArr(sh, lambda idx: g(el(k, idx), el(n, idx)))
+    scipy_ns = {"stats": {"poisson": {"pmf": B(_pois(POISPMF), "scipy.stats.poisson.pmf"), "cdf": B(_pois(POISCDF), "scipy.stats.poisson.cdf")}, "binom": {"pmf": B(binom_pmf, "scipy.stats.binom.pmf")}}}
+    _early_dist = {"POISPMF": POISPMF, "POISCDF": POISCDF, "BINOMPMF": BINOMPMF}
     jscipy = {"stats": {"poisson": {"pmf": B(_pois(POISPMF)), "cdf": B(_pois(POISCDF))}}}
     jax = {"vmap": B(vmap, "vmap"), "pmap": B(pmap, "pmap"), "jit": B(jit, "jit"), "numpy": jnp, "scipy": jscipy,
            "lax": {"scan": B(scan, "scan"), "dynamic_slice_in_dim": B(dynamic_slice_in_dim), "dynamic_slice": B(dynamic_slice)},
@@ -255,7 +264,7 @@ def make(interp):
         return Obj("MultinomialDist", {"log_prob": B(log_prob)})
     interp.dist = {"GCDF": GCDF, "NBPMF": NBPMF, "MULT": MULT, "LOGP": LOGP}; interp.dist.update(_early_dist)
     numpyro_ns = {"distributions": {"Gamma": B(Gamma), "NegativeBinomialProbs": B(NegBin), "Multinomial": B(Multinomial)}}
-    return {"jax": jax, "jax.numpy": jnp, "jax.random": random_ns, "numpyro": numpyro_ns, "numpyro.distributions": numpyro_ns["distributions"], "numpy": np, "loguru": {"logger": logger},
+    return {"jax": jax, "jax.numpy": jnp, "jax.random": random_ns, "numpyro": numpyro_ns, "numpyro.distributions": numpyro_ns["distributions"], "numpy": np, "scipy": scipy_ns, "scipy.stats": scipy_ns["stats"], "loguru": {"logger": logger},
             "jaxtyping": {k: Unres(k) for k in ("Array", "Float", "Int")},
             "typing": {k: Unres(k) for k in ("Tuple", "Callable", "Any", "Literal", "TypeAlias")},
             "itertools": {"product": B(product)}, "functools": {"partial": B(lambda f, *a, **k: (lambda g: g) if f is jax["jit"] else f)},
